@@ -2,7 +2,7 @@
 From Cctp Require Import Lib.Bytes Lib.SMap Lib.Text Lib.Bech32 Lib.Hex Lib.Keccak.
 From Cctp Require Import Model.Codec Model.State Model.Attest Model.Ledger Model.Handlers Model.Chain.
 From Cctp Require Import Proofs.MonadFacts Proofs.FlowFacts Proofs.CallFacts Proofs.MoneyFacts Proofs.CodecFacts Proofs.KeccakFacts.
-From Cctp Require Import Spec.Roles.
+From Cctp Require Import Spec.Roles Proofs.LedgerFacts.
 
 (* [caller] is [] for the plain variant *)
 Definition is_deposit_of (t : tx) from amount dest mr bt caller : Prop :=
@@ -96,7 +96,58 @@ Qed.
 Theorem C05_padded_sender_injective : forall a b, length a = 20 -> length b = 20 -> copy12 a = copy12 b -> a = b.
 Proof. intros a b La Lb E. rewrite !copy12_20 in E by assumption. now apply app_inv_head in E. Qed.
 
+(* The ledger: after a successful deposit every account's balance in every denom is what it was, except the
+   depositor's balance in the burn token, which is lower by exactly the amount.  In particular nobody but
+   the depositor is debited and nothing is left in the module account.  (env_ok: the module's own address
+   string decodes to the module address - checked by computation for the environment of every run.) *)
+Theorem C05_only_the_depositor_is_debited : forall e c plan t from amount dest mr bt caller,
+  env_ok e = true -> is_deposit_of t from amount dest mr bt caller -> is_ok (deliver e c plan t) = true ->
+  exists addr a, acc_address (hrp e) from = Some addr /\ amount = Some a /\
+    forall x d, balance (c_lg (r_chain (deliver e c plan t))) x d =
+                (balance (c_lg c) x d - if same_acct addr bt x d then a else 0)%Z.
+Proof.
+  intros e c plan t from amount dest mr bt caller EO T O.
+  destruct (C05_deposit_effects e c plan t from amount dest mr bt caller T O) as (addr&a&tm&body&maddr&bz&A1&A2&A3&A4&A5&H).
+  cbv zeta in H. destruct H as (_&Lg&_). exists addr, a. split; [exact A1|]. split; [exact A2|].
+  intros x d. rewrite Lg. now apply deposit_ledger.
+Qed.
+
+(* Over any history: the supply destroyed through the module equals the sum of the amounts of the successful
+   deposits, each of which emitted exactly one burn message stating that amount under its own fresh nonce (C07). *)
+Definition burnt_amount (d : depcall) : Z := match d with DBurn _ _ a _ => a | _ => 0%Z end.
+Definition burnt (r : result) : Z := fold_right (fun d acc => (burnt_amount d + acc)%Z) 0%Z (burns_of r).
+Definition deposited (t : tx) : Z :=
+  match t with DepositForBurn _ (Some a) _ _ _ | DepositForBurnWithCaller _ (Some a) _ _ _ _ => a | _ => 0%Z end.
+
+Theorem C05_step_burnt : forall e c plan t,
+  burnt (deliver e c plan t) = if is_ok (deliver e c plan t) then deposited t else 0%Z.
+Proof.
+  intros e c plan t. destruct (is_ok (deliver e c plan t)) eqn:O.
+  - destruct (is_deposit t) eqn:D.
+    + assert (exists from amount dest mr bt caller, is_deposit_of t from amount dest mr bt caller) as (from&amount&dest&mr&bt&caller&T).
+      { destruct t; try discriminate D; [exists from, amount, dest, mint_recipient, burn_token, []; left; auto
+                                        |exists from, amount, dest, mint_recipient, burn_token, caller; right; auto]. }
+      destruct (C05_deposit_effects e c plan t from amount dest mr bt caller T O) as (addr&a&tm&body&maddr&bz&A1&A2&A3&A4&A5&H).
+      cbv zeta in H. destruct H as (Calls&_). unfold burnt, burns_of. rewrite O, Calls. cbn.
+      destruct T as [[-> ->]| ->]; cbn; rewrite A2; lia.
+    + unfold burnt. rewrite C05_only_deposits_debit_and_burn by exact D. destruct t; try discriminate D; reflexivity.
+  - unfold burnt, burns_of. now rewrite O.
+Qed.
+
+Fixpoint total_burnt (e : env) (c : chain) (h : list step) : Z :=
+  match h with [] => 0%Z | s :: h' => let r := deliver e c (fst s) (snd s) in (burnt r + total_burnt e (r_chain r) h')%Z end.
+Fixpoint total_deposited (e : env) (c : chain) (h : list step) : Z :=
+  match h with
+  | [] => 0%Z
+  | s :: h' => let r := deliver e c (fst s) (snd s) in ((if is_ok r then deposited (snd s) else 0) + total_deposited e (r_chain r) h')%Z
+  end.
+Theorem C05_total_burnt : forall e h c, total_burnt e c h = total_deposited e c h.
+Proof. intros e h. induction h as [|s h IH]; intros c; cbn; auto. now rewrite C05_step_burnt, IH. Qed.
+
 Print Assumptions C05_deposit_effects.
+Print Assumptions C05_only_the_depositor_is_debited.
+Print Assumptions C05_step_burnt.
+Print Assumptions C05_total_burnt.
 Print Assumptions C05_message_states_the_burnt_amount.
 Print Assumptions C05_only_deposits_debit_and_burn.
 Print Assumptions C05_sender_of_sends_is_submitter.
